@@ -70,6 +70,9 @@ func (eng *Engine) verifyFunction(fn *ssa.Function, key string, c *Contract) (re
 		t := ex.evalBoolClause(r, st, ex.entry, nil)
 		ex.assume(st, t)
 	}
+	for _, u := range c.Unfolds {
+		ex.applyUnfold(u, st)
+	}
 	// vacuity: requires satisfiable
 	if len(c.Requires) > 0 {
 		o := ex.addObligation(st, "vacuity", "requires-satisfiable", False, token.NoPos)
